@@ -20,13 +20,15 @@ LEVEL_NOTE = ("Partial in this sense: the theorems are about the modelled consum
 RULE = ("four kinds of history: (overlap) the C11 case streams, pulls on each counting input iterator observed after "
         "construction and after every next(); (reader) 0-4 '#' lines, a column line and 0-8 data lines with LF / CRLF / "
         "no line ends, blank and short lines, k <= n+2 calls of next(), lines pulled observed after construction and "
-        "after every call; (writer) 1-6 scheme-less records on a counting handle, modes no-sorter / sorter / "
-        "sort-order-undecidable, records that fail Strict validation; (sorter) capacities 0-6, 0-20 adds, temp-dir "
+        "after every call; (writer) 1-6 scheme-less records on a recording handle observed after every write call, "
+        "headers declaring no order / Coordinate / BarcodesAndCoordinate / Unsorted / Unknown, sorting not asked for "
+        "(assume_sorted=True passed or left at its default) / asked for / asked for but undecidable, += and .write(), "
+        "records that fail Strict validation; (sorter) capacities 0-6, 0-20 adds, temp-dir "
         "listing and spill-file record counts after every add. Non-trivial: at least 3 consumer actions with no error.")
 ASSUMPTIONS = [
     "overlap inputs are list-backed counting iterators; the bound is claimed for histories without a raised error (a report loses the group in progress)",
     "reader cases use Silent/Lenient stringency and headers without a version pragma, so header/record parsing never raises (the model's raise-before-pull path is proved but not exercised)",
-    "writer cases use a scheme-less header; only MafWriter.__iadd__ is modelled (constructor output is observed and subtracted)",
+    "writer cases use a header without version pragma (optionally declaring a sort order); only MafWriter.__iadd__ is modelled (constructor output is observed and subtracted); an unsorted writer = one for which the caller did not ask for sorting (assume_sorted True or default), whatever order the header declares",
     "sorter temp-file I/O succeeds; sorted() returns a permutation of its argument (hypothesis of the theorem)",
 ]
 
@@ -80,8 +82,18 @@ def run_writer(case):
 
     h = Handle()
     mode = case["mode"]
-    hdr = MafHeader.from_lines(["#sort.order BarcodesAndCoordinate"], validation_stringency=VS.Silent) if mode == 1 else MafHeader()
-    w = MafWriter(h, hdr, validation_stringency=VS.Silent, assume_sorted=(mode == 0))
+    # the header may declare a sort order; mode 0 = the caller did not ask for sorting
+    # (assume_sorted True, passed explicitly or left at its default), mode 1 = sorting asked
+    # for and possible, mode 2 = sorting asked for but the declared order has no key
+    order = case.get("order", "BarcodesAndCoordinate" if mode == 1 else None)
+    hdr = (MafHeader.from_lines(["#sort.order " + order], validation_stringency=VS.Silent)
+           if order else MafHeader())
+    kw = {}
+    if mode != 0:
+        kw["assume_sorted"] = False
+    elif case.get("explicit", True):
+        kw["assume_sorted"] = True
+    w = MafWriter(h, hdr, validation_stringency=VS.Silent, **kw)
     w.validation_stringency = VS.Strict
     base = len(h.w)
     steps = []
@@ -91,7 +103,10 @@ def run_writer(case):
         before = "".join(h.w)
         exc = None
         try:
-            w += rec
+            if case.get("use_write"):
+                w.write(rec)
+            else:
+                w += rec
         except Exception as e:
             exc = _exc(e)
         srt = getattr(w, "_sorter", None)
@@ -293,7 +308,9 @@ def classify(case, obs):
     if w == "reader":
         return "reader/%s/lines=%s" % ("iter" if case.get("via_iter") else "next", "0-3" if len(case["lines"]) < 4 else "4+")
     if w == "writer":
-        return "writer/mode=%d/%s" % (case["mode"], "all-valid" if all(v for _, _, v in case["recs"]) else "some-invalid")
+        return "writer/mode=%d/order=%s/%s/%s" % (
+            case["mode"], case.get("order"), "explicit" if case.get("explicit", True) else "default-assume-sorted",
+            "all-valid" if all(v for _, _, v in case["recs"]) else "some-invalid")
     return "sorter/cap=%s" % ("0" if case["cap"] == 0 else "1" if case["cap"] == 1 else "2+")
 
 
@@ -307,6 +324,10 @@ def nontrivial(case, obs):
 
 
 # ---------------------------------------------------------------- generation
+ORDERS = [None, "Coordinate", "BarcodesAndCoordinate", "Unsorted", "Unknown"]
+LOCCOLS = "\t".join(["Chromosome", "Start_Position", "End_Position", "Tumor_Sample_Barcode", "Matched_Norm_Sample_Barcode"])
+
+
 def gen_reader(rng):
     nh = rng.choice([0, 0, 1, 2, 3, 4])
     lines = ["#" + rng.choice(["k v", "note", "x y z", "", "#"]) for _ in range(nh)]
@@ -344,7 +365,22 @@ def gen_writer(rng):
         else:
             c2 = "\t".join(["X"] + ["C%d" % i for i in range(1, ncol)])
             recs.append([c2, "\t".join("7" for _ in range(ncol)), False])
-    return {"what": "writer", "mode": rng.choice([0, 0, 0, 1, 2]), "recs": recs}
+    mode = rng.choice([0, 0, 0, 0, 1, 2])
+    case = {"what": "writer", "mode": mode, "recs": recs, "use_write": rng.random() < 0.3}
+    if mode == 0:
+        # no sorting asked for: every declared order (with a key, without, none), assume_sorted
+        # passed as True or left at its default
+        case["order"] = rng.choice(ORDERS)
+        case["explicit"] = rng.random() < 0.4
+    elif mode == 1:
+        case["order"] = rng.choice(["Coordinate", "BarcodesAndCoordinate"])
+    else:
+        case["order"] = rng.choice([None, "Unsorted", "Unknown"])
+    if rng.random() < 0.5:
+        # records that really carry coordinates and barcodes, in both sort orders
+        pos = sorted(rng.randint(1, 60) for _ in range(rng.randint(1, 6)))
+        case["recs"] = [[LOCCOLS, "\t".join(["chr1", str(q), str(q + 1), "T1", "N1"]), True] for q in pos]
+    return case
 
 
 def gen_sorter(rng):
@@ -387,6 +423,13 @@ def corpus():
         {"what": "reader", "lines": ["A\tB"], "k": 1, "lenient": False, "via_iter": True},
         {"what": "writer", "mode": 0, "recs": [["A\tB", "1\t2", True], ["A\tB", "3\t4", True], ["A\tB\tC", "1\t2\t3", False], ["A\tB", "5\t6", True]]},
         {"what": "writer", "mode": 2, "recs": [["A\tB", "1\t2", True], ["A\tB", "3\t4", True]]},
+        # an already sorted file copied record by record: the header declares its order, assume_sorted left at its default
+        {"what": "writer", "mode": 0, "order": "Coordinate", "explicit": False, "use_write": False,
+         "recs": [[LOCCOLS, "chr1\t5\t6\tT1\tN1", True], [LOCCOLS, "chr1\t10\t11\tT1\tN1", True]]},
+        {"what": "writer", "mode": 0, "order": "BarcodesAndCoordinate", "explicit": False, "use_write": True,
+         "recs": [[LOCCOLS, "chr1\t5\t6\tT1\tN1", True], [LOCCOLS, "chr1\t10\t11\tT1\tN1", True]]},
+        {"what": "writer", "mode": 0, "order": "Unsorted", "explicit": False, "use_write": False,
+         "recs": [["A\tB", "1\t2", True], ["A\tB", "3\t4", True]]},
         {"what": "sorter", "cap": 3, "n": 10},
         {"what": "sorter", "cap": 1, "n": 4},
         {"what": "overlap", "case": K.corpus()[2]},
